@@ -294,6 +294,9 @@ class NpShadow:
     def _obj(a):
         return isinstance(a, _np.ndarray) and a.dtype == object
 
+    def finfo(self, dtype=None):
+        return _np.finfo(_np.float64 if (dtype is object or dtype is SymFloat or dtype is None) else dtype)
+
     def isnan(self, a):
         if self._obj(a):
             return _np.zeros(a.shape, dtype=bool)
@@ -309,7 +312,7 @@ class NpShadow:
         return _np.isinf(a)
 
     def zeros(self, shape, dtype=None, **kw):
-        if dtype is _np.float64 or dtype is float:
+        if dtype is _np.float64 or dtype is float or dtype is SymFloat:
             dtype = object
         return _np.zeros(shape, dtype=dtype if dtype is not None else object, **kw)
 
@@ -319,17 +322,17 @@ class NpShadow:
         return a
 
     def array(self, a, dtype=None, **kw):
-        if dtype is _np.float64 or dtype is float:
+        if dtype is _np.float64 or dtype is float or dtype is SymFloat:
             dtype = object
         return _np.array(a, dtype=dtype, **kw)
 
     def asarray(self, a, dtype=None, **kw):
-        if dtype is _np.float64 or dtype is float:
+        if dtype is _np.float64 or dtype is float or dtype is SymFloat:
             dtype = object
         return _np.asarray(a, dtype=dtype, **kw)
 
     def ascontiguousarray(self, a, dtype=None, **kw):
-        if dtype is _np.float64 or dtype is float:
+        if dtype is _np.float64 or dtype is float or dtype is SymFloat:
             dtype = object
         return _np.ascontiguousarray(a, dtype=dtype, **kw)
 
@@ -341,8 +344,23 @@ class NpShadow:
             return a.same(b)          # generic symbolic values: close only if identical
         return _np.isclose(a, b, **kw)
 
-    def allclose(self, a, b, **kw):
-        raise RuntimeError('allclose on symbolic data')
+    def allclose(self, a, b, rtol=1e-05, atol=1e-08, equal_nan=False):
+        """numpy's |a - b| <= atol + rtol*|b| entry by entry; on symbolic entries the comparison is an ordering comparison like any other of
+        the executed code: the policy decides it or the run forks on it (kprop.Fork), the 'all close' outcome first"""
+        A, B = _np.broadcast_arrays(_np.asarray(a, dtype=object), _np.asarray(b, dtype=object))
+        for x, y in zip(A.ravel(), B.ravel()):
+            x, y = Sym.lift(x), Sym.lift(y)
+            if x.is_numeric() and y.is_numeric():
+                ok = bool(_np.isclose(float(x.n), float(y.n), rtol=rtol, atol=atol))
+            elif x.same(y):
+                ok = True
+            else:
+                d = x - y
+                tol = Sym.lift(atol) + Sym.lift(rtol) * (abs(y.n) if y.is_numeric() else abs(y))
+                ok = bool(d * d <= tol * tol)
+            if not ok:
+                return False
+        return True
 
 
 def sym_deg2rad(x):
@@ -389,6 +407,24 @@ PANEL_MODELS = {
 }
 
 
+class _SymFloatMeta(type):
+    def __instancecheck__(cls, x):
+        return isinstance(x, float)
+
+    def __subclasscheck__(cls, c):
+        return issubclass(c, float)
+
+    def __call__(cls, x=0.0):
+        # float() of an exact real is that real: a symbolic input stays symbolic (anything else is converted as usual)
+        if isinstance(x, Sym) and not x.is_numeric():
+            return x
+        return float(x)
+
+
+class SymFloat(metaclass=_SymFloatMeta):
+    """what the name `float` stands for inside the package's Python modules during a symbolic run"""
+
+
 class Shadow:
     """context manager: patch the imported compmech modules, restore on exit"""
 
@@ -420,6 +456,7 @@ class Shadow:
                 pass
         npx = NpShadow()
         for m in mods:
+            self._set(m, 'float', SymFloat)
             if hasattr(m, 'np'):
                 self._set(m, 'np', npx)
             if hasattr(m, 'DOUBLE'):
